@@ -45,9 +45,9 @@ func c17DotOK(e string) bool {
 
 // H_C17_identities
 func H_C17_identities() {
-	vrtSpec(2, 2, 1, "a,b", smASCII, nfInt, 0)
+	vrtSpec(tq(2, 3), 2, 1, "a,b", smASCII, nfInt, 0)
 	vrtNumRange(0, 2)
-	vrtNested(1)
+	vrtNested(tq(1, 2))
 	e := c17Subs[vrtChoose("sub", len(c17Subs))]
 	ids := c17Make(e)
 	id := ids[vrtChoose("identity", len(ids))]
